@@ -243,6 +243,16 @@ pub fn depth1() -> Vec<Ty> {
     big[200] = Some(p("u64"));
     big[256] = Some(p("string"));
     v.push(Ty::Variant(big));
+    // u16 discriminant with payloads whose alignment is SMALLER than the
+    // discriminant: payload offset 2 (a u8-tag computation would give 1)
+    let mut big8: Vec<Option<Ty>> = (0..257).map(|_| None).collect();
+    big8[0] = Some(p("u8"));
+    big8[256] = Some(p("bool"));
+    v.push(Ty::Variant(big8));
+    let mut big16: Vec<Option<Ty>> = (0..300).map(|_| None).collect();
+    big16[1] = Some(p("s16"));
+    big16[299] = Some(p("u8"));
+    v.push(Ty::Variant(big16));
     // maps
     for (k, val) in [
         (p("u8"), p("u32")),
